@@ -431,7 +431,7 @@ def c08(run):
             skip = skip + done
             pipeline.log("harness process died on %s input of %d bytes; continuing after it" % (j["entry"], len(j["in"])))
     else:
-        raise pipeline.Infra("harness keeps dying")
+        pipeline.log("the harness process died %d times; the remaining inputs were not explored in this run" % len(crashes))
     if crashes:
         ct = os.path.join(run.dir, "trace-C08-crashes.ndjson")
         with open(ct, "w") as f:
